@@ -200,7 +200,8 @@ def gen_rich(rng, P, serial=0):
       total[0] += v
 
   # styling
-  nstyles = rng.choice([0, 0, 1, 2, 3, 4])
+  big = rng.random() < 0.06            # sizes no enumeration reaches: a dozen chained styles, wide and deep content
+  nstyles = rng.choice([0, 0, 1, 2, 3, 4]) if not big else rng.randint(8, 14)
   ids = ["s%d" % (k + 1) for k in range(nstyles)]
   for sid in ids:
     pool = ids + ["sX"]
@@ -210,7 +211,14 @@ def gen_rich(rng, P, serial=0):
       refs = [others[0], others[1], others[0]]
     doc["S"].append({"id": sid, "refs": refs, "attrs": rand_attrs(rng, CONTENT_PROPS + ["displayAlign"], 1, 3)})
   forced = None
-  if nstyles >= 3 and rng.random() < 0.35:
+  if big:
+    # one long chain s1 -> s2 -> ... -> sN; the value of a property comes from the NEAREST style of the chain that sets it
+    S = doc["S"]
+    for k, st in enumerate(S):
+      st["refs"] = [ids[k + 1]] if k + 1 < len(S) else []
+      st["attrs"] = rand_attrs(rng, CONTENT_PROPS, 1, 1) if (k >= len(S) - 3 or rng.random() < 0.3) else []
+    forced = "s1"
+  elif nstyles >= 3 and rng.random() < 0.35:
     # a chain (or diamond) of three styles declared BEFORE the styles they reference, each contributing its own property:
     # chained referential styling must be resolved recursively whatever the declaration order
     S = doc["S"]
@@ -232,7 +240,7 @@ def gen_rich(rng, P, serial=0):
       return [forced]
     if not ids or rng.random() < 0.5:
       return []
-    refs = [rng.choice(ids + ["sX"]) for _ in range(rng.choice([1, 1, 2, 3]))]
+    refs = [rng.choice(ids + ["sX"]) for _ in range(rng.choice([1, 1, 2, 3]) if not big else rng.randint(1, 9))]
     if len(ids) >= 2 and rng.random() < 0.25:
       a, b = rng.sample(ids, 2)
       refs = [a, b, a]              # the same id repeated after a different one: the LAST occurrence decides
@@ -284,10 +292,10 @@ def gen_rich(rng, P, serial=0):
     i = container("span", parent, depth)
     maybe_set(i)
     nd = doc["N"][i - 1]
-    n = rng.choice([1, 1, 2, 3])
+    n = rng.choice([1, 1, 2, 3]) if not big else rng.randint(1, 10)
     for _ in range(n):
       r = rng.random()
-      if r < 0.6 or depth >= 2:
+      if r < 0.6 or depth >= (2 if not big else 7) or len(doc["N"]) > 150:
         text(i)
       elif r < 0.85:
         span(i, depth + 1)
